@@ -110,7 +110,7 @@ LookupCase(tz) ==
    file |-> [ver |-> tz.ver, trans |-> [i \in 1..Len(tz.trans) |-> <<tz.trans[i].t[1], tz.trans[i].t[2], tz.trans[i].idx>>],
              types |-> tz.types, footer |-> FooterText(tz.footer)],
    ts |-> ts,
-   exp |-> <<[k |-> "ok", offs |-> [i \in 1..Len(ts) |-> LET a == Lookup(tz, ts[i]) IN CHOOSE x \in a : TRUE]]>>]
+   exp |-> <<[k |-> "ok", offs |-> [i \in 1..Len(ts) |-> LET a == Lookup(tz, ts[i]) IN IF a.any THEN "any" ELSE a.off]]>>]
 
 \* every synthesized footer has the IANA shape the property assumes, in every year used
 ASSUME \A i \in 1..Len(Footers), y \in Years : IanaShaped(Footers[i][1], y)
